@@ -534,3 +534,52 @@ def _stores_through(fn: FuncInfo, param: str) -> bool:
             if isinstance(base, ast.Name) and base.id in aliases:
                 return True
     return False
+
+
+# ------------------------------------------------------------ R-ANNOUNCE: who writes the domain stack
+STACK_WRITERS = {
+    # function -> the rule that establishes that its stores are announced before the next propagation pass
+    "cp_init": "R-ANNOUNCE(d): callers re-queue every propagator (constructor: np.ones; reset: fill(True))",
+    "cp_put": "R-PUSH-POP: a push copies, it changes no domain",
+    "min_value_dom_heuristic": "R-BRANCH-EVENTS + R-HANDOVER",
+    "max_value_dom_heuristic": "R-BRANCH-EVENTS + R-HANDOVER",
+    "split_low_dom_heuristic": "R-BRANCH-EVENTS + R-HANDOVER",
+    "value_dom_heuristic": "R-BRANCH-EVENTS + R-HANDOVER",
+    "bound_consistency_algorithm": "R-ANNOUNCE (write-back) + R-EVENTS-EXACT",
+    "decrease_max": "R-TIGHTEN: called right after reset's full re-trigger, before the next search",
+    "increase_min": "R-TIGHTEN: called right after reset's full re-trigger, before the next search",
+    "shave_bound": "R-SHAVE: restores the saved alternative (net change replayed by backtrack from the recorded events)",
+}
+TRANSITIVE_ONLY = {"mid_value_dom_heuristic", "min_cost_dom_heuristic", "shaving_consistency_algorithm", "solve_one", "reset", "golomb_consistency_algorithm"}
+
+
+def rule_stack_writers(ctx: Ctx, prog: Program, thorough: bool = False) -> None:
+    ctx.rule("R-ANNOUNCE")
+    roles = get_roles(prog)
+    n = 0
+    for fn, p in roles.functions_with_role("shr_domains_stack"):
+        if not _stores_through(fn, p):
+            continue
+        if ".examples." in fn.module:
+            if thorough:
+                ctx.undecided_site("R-ANNOUNCE", f"{fn.qualname}", "custom consistency algorithm of an example model: its stores are followed by add_propagators in "
+                                   "the same loop body; not part of the shipped engine")
+            continue
+        n += 1
+        ctx.fn(fn.fq)
+        if fn.name in STACK_WRITERS:
+            ctx.ok("R-ANNOUNCE", f"writer {fn.name}: covered by {STACK_WRITERS[fn.name]}", nontrivial=False)
+        else:
+            ctx.violation("R-ANNOUNCE", fn.path, fn.qualname, "unexpected-stack-writer", fn.loc(),
+                          f"{fn.qualname} stores into the domain stack but no rule establishes that the change is announced to the watching constraints "
+                          "before the next propagation pass (writers known to the protocol: " + ", ".join(sorted(STACK_WRITERS)) + ")")
+    ctx.floor("R-ANNOUNCE:stack-writers", n, 10)
+    # the constructor starts with every propagator queued
+    fn = prog.func(f"{prog.package}.solvers.backtrack_solver", "BacktrackSolver.__init__")
+    import ast as _ast
+
+    src = _ast.unparse(fn.node)
+    if "self.triggered_propagators = np.ones(" in src:
+        ctx.ok("R-ANNOUNCE", "constructor: every propagator is queued initially (np.ones)")
+    else:
+        ctx.violation("R-ANNOUNCE", fn.path, fn.qualname, "initial-queue", fn.loc(), "the propagation queue does not start with every propagator queued")
